@@ -62,20 +62,47 @@ def native_replay(repo, unit, decoded):
     """evaluate the same predicate on the real crate for the decoded counterexample; -> (confirmed|None, text)"""
     rp = unit.get("replay")
     if not rp: return None, "no native replay registered for this unit"
+    if rp.get("kind") == "search":
+        # the verifier's counterexample is over abstracted values (e.g. a havocked float field): look for a concrete
+        # failing input of the real API with a bounded native search
+        bindir, err = replaybuild.build(repo, bins=[rp["bin"]])
+        if not bindir: return None, "replay crate does not build: " + err[-400:]
+        try:
+            p = subprocess.run([os.path.join(bindir, rp["bin"])] + rp["args"], capture_output=True, text=True, timeout=900)
+        except subprocess.TimeoutExpired:
+            return None, "native search timed out"
+        txt = "$ %s %s\n%s" % (rp["bin"], " ".join(rp["args"]), p.stdout.strip()[:1500])
+        return (True if p.returncode == 1 else (False if p.returncode == 0 else None)), txt
     bindir, err = replaybuild.build(repo, bins=["distreplay"])
     if not bindir: return None, "replay crate does not build: " + err[-400:]
-    args = []
-    for d in decoded:
-        if d[1] == "words": args += ["w:%d" % w for w in d[2]]
-        else: args.append("%s:%d" % (d[1], d[2]))
-    cmd = [os.path.join(bindir, "distreplay"), rp["kind"], rp["id"], rp.get("float") or "-"] + args
-    try:
-        p = subprocess.run(cmd, capture_output=True, text=True, timeout=120)
-    except subprocess.TimeoutExpired:
-        return None, "native replay timed out"
-    txt = (p.stdout + p.stderr).strip()
-    if p.returncode == 1: return True, txt
-    if p.returncode == 0: return False, txt
+    LATTICE = [0, (1 << 64) - 1, 1 << 63, (1 << 63) - 1, 0x7ff, ((1 << 64) - 1) ^ 0x7ff, 1 << 11, 1 << 12, 0xff, ((1 << 64) - 1) ^ 0xff, 0xffffffff, 1 << 32]
+
+    def run_with(words_override):
+        args = []
+        for d in decoded:
+            if d[1] == "words":
+                ws = list(d[2])
+                if words_override is not None:
+                    ws = [words_override[0]] + ws[1:] if ws else list(words_override)
+                args += ["w:%d" % w for w in ws]
+            else: args.append("%s:%d" % (d[1], d[2]))
+        cmd = [os.path.join(bindir, "distreplay"), rp["kind"], rp["id"], rp.get("float") or "-"] + args
+        try:
+            p = subprocess.run(cmd, capture_output=True, text=True, timeout=120)
+        except subprocess.TimeoutExpired:
+            return None, "native replay timed out"
+        return p.returncode, (p.stdout + p.stderr).strip()
+
+    rc, txt = run_with(None)
+    if rc == 1: return True, txt
+    if rc == 0 and any(d[1] == "words" for d in decoded):
+        # the verifier's word may depend on a value the libm CONTRACT allows but the real libm does not produce:
+        # keep the counterexample's parameters and try the boundary lattice of first words on the real code
+        for w in LATTICE:
+            rc2, txt2 = run_with([w])
+            if rc2 == 1:
+                return True, txt2 + "\n(parameters from the verifier's counterexample; first word replaced by the boundary word %d)" % w
+    if rc == 0: return False, txt
     return None, txt
 
 
@@ -144,8 +171,10 @@ def run_property(pid, tier, repo, jobs=12):
             r2 = K.run_harness(ov, u["harness"], solver=u.get("solver"), timeout=max(1800, u.get("timeout", 600) * 4), extra=u.get("extra"), playback=True, should_panic=u.get("should_panic", False))
             decoded, confirmed, replay_txt = [], None, "no counterexample bytes obtained"
             # one counterexample per failing check: replay each until the unit's predicate is confirmed natively
+            if (u.get("replay") or {}).get("kind") == "search":
+                confirmed, replay_txt = native_replay(repo, u, [])
             for pb in (r2.get("fail_playbacks") or [])[:6]:
-                if not u.get("schema"): break
+                if not u.get("schema") or (u.get("replay") or {}).get("kind") == "search": break
                 d = decode(u["schema"], pb["vals"])
                 cf, txt = native_replay(repo, u, d)
                 if not decoded or cf:
@@ -199,7 +228,7 @@ def replay(rp, repo):
     decoded = [tuple(d) for d in rp.get("decoded", [])]
     print("unit %s target %s" % (rp.get("unit"), rp.get("target")))
     print("failed obligations: " + "; ".join(c["description"] for c in rp.get("failed_obligations", [])[:3]))
-    if not decoded:
+    if not decoded and (rp.get("replay") or {}).get("kind") != "search":
         print("no decoded counterexample in the replay file (no-failing-input-found)"); return 0
     confirmed, txt = native_replay(repo, unit, decoded)
     print(txt)
